@@ -301,6 +301,13 @@ func emitRules(c *core.Ctx, s *Stage) {
 
 func runC12(c *core.Ctx) {
 	c.Doc("copier-per-input", 1, "go copier(range element); wg.Add(len(inputs)) over the same slice")
+	// the parallel package's Join is this Join: it forwards its arguments in order and adds nothing (shared with C09)
+	c.Doc("delegation", 1, "fork.Join forwards to pipe.Join, arguments in order")
+	if c.W.Func("pipe/fork", "Join") != nil {
+		delegation(c, "Join")
+	} else {
+		c.Ok("delegation", "fork.Join", 0, "package fork has no Join: nothing wraps pipe.Join")
+	}
 	c.Doc("copier-iteration", 1, "copier: range its input; per element exactly one cancellable send of that element; nothing else")
 	s := stageOf(c, "copier-per-input", "pipe", "Join")
 	if s == nil {
